@@ -685,6 +685,7 @@ def claim_lockstep_top(cx, res, kf):
         # call histories: the same parser keeps being asked after an error (what each reader consumed before failing shows
         # in what the following calls return)
         for text in (b"(a . ) x 2", b"( . ) x 2", b"(a .) x 2", b"(a . ;c\n) x 2", b"#(a . ) x", b"(a]) x", b"[a) x", b"(a . b c) x", b"') x", b"(1 #) x",
+                     b"'#z " * 130 + b"(x)", b"(a . #z) " * 130 + b"(((x)))", b"#(#z) " * 130 + b"(x)", b"',@#z\n" * 70 + b"((x))", b"'" * 100 + b"#z " + b"(" * 40 + b"x" + b")" * 40,
                      b"(\"s) x", b"#u8(1 2 300) x", b"#u8(a) x", b"(a . b . c) x y", b"#(1 . 2) x", b"(#\\bogus) x", b"(1.5.6) x", b"(a b", b"(((", b")))"):
             for src in ("slice", "reader"):
                 v = RP.parse(text, "default", src, "valuec")
